@@ -5,11 +5,14 @@ from props import drawgen
 RULE = ("random programs (1-6 ops) of in-bounds set_pixel / set_pixels / draw_iter / fill_contiguous / fill_solid / clear on built-in "
         "and const-generic external models (1x1 .. 65535x65535), windows at the extremes (full, 1x1, touching each edge), all 8 "
         "orientations, both colour formats, 8- and 16-bit word interfaces, batch on/off, debug/release; the implementation's trace is "
-        "decoded by the reference controller and the write history compared with the specification list; non-trivial = at least one op "
+        "decoded by the reference controller and the write history compared with the specification list; a quarter as many programs again on small panels over the REAL transports (SpiInterface with buffer lengths bpp, bpp+1, 2bpp-1, 2bpp, 2bpp+1, 7, 64; ParallelInterface on 8- and 16-bit buses) whose pin-level logs are decoded in Coq and whose final picture is compared; non-trivial = at least one op "
         "writes a pixel and the window is not the whole framebuffer in default orientation")
 TRUSTED = ["Oracle/Controller.v (reference MIPI-DCS controller) and Oracle/DrawSpec.v (per-op expected writes)"]
 ASSUMPTIONS = ["drawing arguments of set_pixel/set_pixels in bounds, colour count <= rectangle area (documented precondition)"]
 PER_SHARD = 40
+CASE_TYPE = "(c1case * c1out)"
+IMPORTS = "Require Import Corr.L2 Corr.C01."
+SMALL = [100, 101, 102, 103, 104, 105, 203, 204]
 
 
 def gen(rng, tier, info, ifaces=(0, 1, 2, 7)):
@@ -23,9 +26,34 @@ def gen(rng, tier, info, ifaces=(0, 1, 2, 7)):
         pc["tags"] = ["rot%d%s" % (o["rot"], "m" if o["mir"] else ""), "iface%d" % pc["iface"], "batch" if pc["batch"] else "nobatch",
                       pc["md"], "model:" + ("ext" if pc["model"] >= 100 else "builtin"), m["color"]] + ["op:" + op[0] for _, op in pc["ops"]]
         pc["nontrivial"] = not (o["w"] == m["fw"] and o["h"] == m["fh"] and o["rot"] == 0 and not o["mir"])
-        cases.append(vlib.pcase(pc))
+        c = vlib.pcase(pc)
+        c.coq = "C1L1 (%s)" % c.coq
+        cases.append(c)
+    # the same kind of programs below the real transports (SPI with any buffer length >= one pixel, 8- and 16-bit
+    # parallel): pin-level logs, decoded by the Coq decoder and the reference controller; small panels
+    for k in range(n // 4):
+        pc, m, lw, lh, cmax = drawgen.config(rng, info, ifaces=(3, 4, 5), models=SMALL)
+        if pc["iface"] == 3:
+            bpp = 2 if m["color"] == "Rgb565" else 3
+            pc["ifparam"] = rng.choice([bpp, bpp + 1, 2 * bpp - 1, 2 * bpp, 2 * bpp + 1, 7, 64])
+        pc["ops"] = [(-1, drawgen.op_inbounds(rng, lw, lh, cmax)) for _ in range(rng.range(1, 4))]
+        o = pc["opts"]
+        pc["tags"] = ["L2", "iface%d" % pc["iface"], "rot%d%s" % (o["rot"], "m" if o["mir"] else "")] + ["op:" + op[0] for _, op in pc["ops"]]
+        pc["nontrivial"] = True
+        c = vlib.pcase(pc)
+        c.coq = "C1L2 (%s)" % c.coq
+        cases.append(c)
     return cases
 
 
+def wrap_impl(case, impl):
+    return ("C1O2 " if "L2" in case.tags else "C1O1 ") + impl
+
+
 def shrink(case):
-    return drawgen.shrink_prog(case)
+    out = drawgen.shrink_prog(case)
+    l2 = "L2" in case.tags
+    for c in out:
+        c.coq = ("C1L2 (%s)" if l2 else "C1L1 (%s)") % c.coq
+        c.tags = list(case.tags)
+    return out
